@@ -149,6 +149,12 @@ class Unifier:
                         return n.body if cls.name == t.args[1].id else n.orelse
                 if norm(n.body) == norm(n.orelse):
                     return n.body
+                # `<decoded value> is not None` : values produced by the decoder / held by the writer are not None
+                if isinstance(t, ast.Compare) and len(t.ops) == 1 and isinstance(t.ops[0], (ast.Is, ast.IsNot)) and norm(t.comparators[0]) == "None":
+                    lhs = norm(t.left)
+                    import re as _re
+                    if _re.fullmatch(r"self\.\w+", lhs) or _re.fullmatch(r"_R\d+_", lhs) or lhs.startswith("__list__("):
+                        return n.body if isinstance(t.ops[0], ast.IsNot) else n.orelse
                 ct = canon(t, u.ctx)
                 if ct in u.known_true:
                     return n.body
